@@ -605,8 +605,8 @@ func runDkg(in *input, em *lib.Emitter, id string) {
 			}
 		}
 		human["result"] = map[string]interface{}{"submitter": abi.SubmitterMemberIndex.String(),
-			"groupPubKey": hex.EncodeToString(abi.GroupPubKey), "misbehaved": abi.MisbehavedMembersIndices,
-			"signing": signingN, "signaturesLen": len(abi.Signatures), "membersHash": hex.EncodeToString(abi.MembersHash[:]),
+			"groupPubKey": hex.EncodeToString(abi.GroupPubKey), "misbehaved": u8s(abi.MisbehavedMembersIndices),
+			"signing": u8s(signingN), "signaturesLen": len(abi.Signatures), "membersHash": hex.EncodeToString(abi.MembersHash[:]),
 			"recoveredOperatorIDs": recovered}
 	}
 
